@@ -4,7 +4,7 @@ from simcheck import sim_check
 
 def run(tier, seed, replay):
     kws = [dict(events=True, weights=dict(sev=4.0, edeliver=5.0, deliver=2.0)), dict(events=True, nclients=3, auth="custom"), dict(events=True, policy="black"), dict(events=True, weights=dict(sev=3.0, sop=6.0))]
-    return sim_check("C04", tier, seed, kws, n_quick=240, n_thorough=6000, oracle_props={"C04"}, known_ids=("D19",),
+    return sim_check("C04", tier, seed, kws, n_quick=240, n_thorough=24000, oracle_props={"C04"}, known_ids=("D19",),
                      rule_extra=", server events of every kind (ordered, independent, mapped, unreliable, triggers with targets) emitted in arbitrary frames with event channels delayed independently of the update channel",
                      extra_assumptions=["'withheld' is read as 'not delivered': a ready event whose entity cannot be resolved on the client is dropped, not retried (C04_references_resolve_or_dropped)"],
                      model_name="RV.Repl.Sys + RV.Events.Remote")
